@@ -1,4 +1,5 @@
 #!/bin/bash
+export VERIF_NO_EVIDENCE=1   # runs on a mutated tree never write /verif/evidence
 # usage: sweep_seeded.sh [ids...] : every seeded change against the check of its own property (full check incl. Lean + correspondence)
 # writes .work/sweep_seeded.log ; restores /repo and the generated Lean files afterwards
 cd /verif
